@@ -362,7 +362,7 @@ class Rig:
             if m is not None:
                 ctx.violation("reset-obs-not-of-returned-state", dict(det, mismatch=m))
         except Exception as e:
-            ctx.violation("components-raise", self.where(error=repr(e)[:300]))
+            ctx.inconc(f"oracle components raised on {self.tag}: {repr(e)[:300]}")
             self.dead = True
         return state
 
@@ -423,7 +423,7 @@ class Rig:
         try:
             c = self.comps(env, state, action, ns)
         except Exception as e:
-            ctx.violation("components-raise", self.where(chain=chain, i=i, error=repr(e)[:300]))
+            ctx.inconc(f"oracle components raised on {self.tag}: {repr(e)[:300]}")
             self.dead = True
             return None
         c_term, c_trunc = bool(c["term"]), bool(c["trunc"])
